@@ -133,7 +133,7 @@ pub struct ClosedStream { pub _private: () }
 pub trait BytesSource { }
 pub struct Written { pub bytes: usize, pub chunks: usize }
 pub enum WriteError { Blocked, Stopped(VarInt), ClosedStream }
-pub struct Retransmits { pub reset_stream: Vec<(super::code::StreamId, VarInt)> }
+pub struct Retransmits { pub reset_stream: Vec<(super::code::StreamId, VarInt)>, pub stop_sending: Vec<frame::StopSending>, pub max_data: bool }
 /// what the map holds for `id` once a lazily created Send has been materialised (None: no such stream)
 pub uninterp spec fn send_abs(m: FxHashMap<super::code::StreamId, Option<Box<Send>>>, id: super::code::StreamId) -> Option<Send>;
 /// `self.state.send.get_mut(&self.id).map(get_or_insert_send(max_send_data))`
@@ -204,6 +204,19 @@ impl Recv {
 impl View for Bytes { type V = Seq<u8>; uninterp spec fn view(&self) -> Seq<u8>; }
 impl Recv {
     #[verifier::external_body] pub fn is_receiving(&self) -> (r: bool) ensures r == !self.reset { unimplemented!() }
+    /// whether the stream's final size is still unknown (no FIN seen, not reset)
+    pub uninterp spec fn open_ended(&self) -> bool;
+    #[verifier::external_body] pub fn final_offset_unknown(&self) -> (r: bool) ensures r == self.open_ended() { unimplemented!() }
+    /// clauses of Recv::stop proved on the real function in unit recv: credit for everything received and not yet read, once
+    #[verifier::external_body] pub fn stop(&mut self) -> (res: Result<(u64, super::code::ShouldTransmit), ClosedStream>)
+        requires old(self).wf_spec()
+        ensures final(self).wf_spec(), match res {
+            Ok((credits, _)) => !old(self).stopped && final(self).stopped && credits == old(self).end - old(self).assembler.br
+                && final(self).end == old(self).end && final(self).assembler.br == old(self).assembler.br && final(self).reset == old(self).reset
+                && final(self).open_ended() == old(self).open_ended(),
+            Err(_) => old(self).stopped && *final(self) == *old(self),
+        }
+    { unimplemented!() }
     /// clauses of Recv::ingest proved on the real function in unit recv (flow-control part)
     #[verifier::external_body]
     pub fn ingest(&mut self, frame: frame::Stream, payload_len: usize, received: u64, max_data: u64) -> (res: Result<(u64, bool), TransportError>)
@@ -225,6 +238,7 @@ impl Recv {
 pub mod frame { use super::*; pub struct Stream { pub id: super::super::code::StreamId, pub offset: u64, pub fin: bool, pub data: Bytes }
 impl Stream { pub const SIZE_BOUND: usize = 1 + 8 + 8 + 8; }
 pub struct StreamMeta { pub id: super::super::code::StreamId, pub offsets: Range<u64>, pub fin: bool }
+pub struct StopSending { pub id: super::super::code::StreamId, pub error_code: VarInt }
 /// wire image of the frame header (type byte, stream id, offset unless 0, length if asked for): proved for the real encoder in unit frame_codec
 pub uninterp spec fn meta_image(m: StreamMeta, length: bool) -> Seq<u8>;
 impl StreamMeta {
@@ -251,6 +265,34 @@ pub uninterp spec fn recv_abs(m: FxHashMap<super::code::StreamId, Option<StreamR
 pub fn recv_entry<'a>(m: &'a mut FxHashMap<super::code::StreamId, Option<StreamRecv>>, id: super::code::StreamId, window: u64) -> (r: Option<&'a mut Recv>)
     ensures match r {
         Some(rs) => recv_abs(*old(m), id) == Some(*rs) && rs.wf_spec() && recv_abs(*final(m), id) == Some(*final(rs)),
+        None => recv_abs(*old(m), id).is_none() && *final(m) == *old(m),
+    }
+{ unimplemented!() }
+/// `HashMap::entry(id)` when occupied: exclusive access to one stream's slot.  `fut` is a prophecy: the map once the entry is gone.
+#[verifier::external_body] pub struct RecvOcc<'a> { m: &'a mut FxHashMap<super::code::StreamId, Option<StreamRecv>> }
+impl<'a> RecvOcc<'a> {
+    pub uninterp spec fn cur(&self) -> Recv;
+    pub uninterp spec fn key(&self) -> super::code::StreamId;
+    pub uninterp spec fn fut(&self) -> FxHashMap<super::code::StreamId, Option<StreamRecv>>;
+    /// `get_or_insert_recv(window)(entry.get_mut())`
+    #[verifier::external_body] pub fn get_recv<'b>(&'b mut self, window: u64) -> (r: &'b mut Recv)
+        ensures *r == old(self).cur(), final(self).cur() == *final(r), final(self).key() == old(self).key(), final(self).fut() == old(self).fut()
+    { unimplemented!() }
+    /// `entry.remove()`
+    #[verifier::external_body] pub fn remove(self) -> (r: Option<StreamRecv>)
+        ensures r.is_some(), recv_abs(self.fut(), self.key()).is_none()
+    { unimplemented!() }
+}
+/// an entry that goes out of scope leaves its (possibly modified) stream in the map
+#[verifier::external_body]
+pub broadcast proof fn axiom_recv_occ_resolved<'a>(e: RecvOcc<'a>)
+    ensures #[trigger] has_resolved(e) ==> recv_abs(e.fut(), e.key()) == Some(e.cur())
+{}
+/// `match self.state.recv.entry(id) { Occupied(s) => s, Vacant(_) => .. }`
+#[verifier::external_body]
+pub fn recv_occupied<'a>(m: &'a mut FxHashMap<super::code::StreamId, Option<StreamRecv>>, id: super::code::StreamId) -> (r: Option<RecvOcc<'a>>)
+    ensures match r {
+        Some(e) => recv_abs(*old(m), id) == Some(e.cur()) && e.cur().wf_spec() && e.key() == id && *final(m) == e.fut(),
         None => recv_abs(*old(m), id).is_none() && *final(m) == *old(m),
     }
 { unimplemented!() }
@@ -314,6 +356,13 @@ impl vstd::std_specs::cmp::PartialEqSpecImpl for StreamId { open spec fn obeys_e
 //@ extract quinn-proto/src/connection/streams/mod.rs :: struct ShouldTransmit
 //@ derive Copy Clone
 //@ end
+impl ShouldTransmit {
+//@ extract quinn-proto/src/connection/streams/mod.rs :: impl ShouldTransmit::fn should_transmit
+//@ ret r
+//@ contract
+        ensures r == self.0
+//@ end
+}
 pub enum StreamEvent { Opened { dir: Dir }, Readable { id: StreamId }, Writable { id: StreamId }, Finished { id: StreamId }, Stopped { id: StreamId, error_code: VarInt }, Available { dir: Dir } }
 
 impl StreamId {
@@ -785,6 +834,7 @@ impl StreamsState {
             final(self).local_max_data == sat_add(old(self).local_max_data, sat_sub(credits, old(self).receive_window_shrink_debt)),
             final(self).receive_window_shrink_debt == sat_sub(old(self).receive_window_shrink_debt, credits),
             final(self).data_recvd == old(self).data_recvd, final(self).sent_max_data == old(self).sent_max_data, final(self).receive_window == old(self).receive_window,
+            final(self).recv == old(self).recv, final(self).send == old(self).send,
             r.0 == (final(self).local_max_data <= VarInt::MAX.0 && final(self).local_max_data - final(self).sent_max_data.0 >= final(self).receive_window / 8),
 //@ end
 
@@ -802,6 +852,32 @@ impl StreamsState {
 //@ replace super::State => State
 //@ end
 
+//@ extract quinn-proto/src/connection/streams/mod.rs :: struct RecvStream
+//@ end
+impl<'a> RecvStream<'a> {
+//@ extract quinn-proto/src/connection/streams/mod.rs :: impl RecvStream<'_>::fn stop
+//@ props C06 C11
+//@ ret res
+//@ replace ws:match self.state.recv.entry(self.id) { hash_map::Entry::Occupied(s) => s, hash_map::Entry::Vacant(_) => return Err(ClosedStream { _private: () }), } ==>> match recv_occupied(&mut self.state.recv, self.id) { Some(s) => s, None => return Err(ClosedStream { _private: () }) }
+//@ replace get_or_insert_recv(self.state.stream_receive_window)(entry.get_mut()) => entry.get_recv(self.state.stream_receive_window)
+//@ at-start
+        broadcast use axiom_recv_occ_resolved;
+//@ contract
+        requires
+            old(self).state.sent_max_data.0 <= old(self).state.local_max_data || old(self).state.local_max_data > VarInt::MAX.0,
+        ensures match res {
+            // the application discards what it has not read: exactly that much credit goes back to the connection window, once, and the
+            // stream is kept (marked stopped) for as long as its final size is unknown
+            Ok(()) => recv_abs(old(self).state.recv, old(self).id) matches Some(r0) && !r0.stopped
+                && final(self).state.local_max_data == sat_add(old(self).state.local_max_data, sat_sub((r0.end - r0.assembler.br) as u64, old(self).state.receive_window_shrink_debt))
+                && final(self).state.data_recvd == old(self).state.data_recvd
+                && (r0.open_ended() ==> (recv_abs(final(self).state.recv, old(self).id) matches Some(r1) && r1.stopped && r1.end == r0.end && r1.assembler.br == r0.assembler.br)),
+            // unknown or already stopped stream: nothing changes
+            Err(_) => final(self).state.fc() == old(self).state.fc()
+                && (recv_abs(old(self).state.recv, old(self).id) matches Some(r0) ==> (r0.stopped && recv_abs(final(self).state.recv, old(self).id) == Some(r0))),
+        }
+//@ end
+}
 impl<'a> SendStream<'a> {
 //@ extract quinn-proto/src/connection/streams/mod.rs :: impl SendStream<'a>::fn write_source
 //@ props C05
